@@ -142,7 +142,7 @@ fn cursor_scan_two_leaves() {
 }
 
 // ---- C08-Ob3: seek on one leaf: reports presence; iteration continues from the key or an immediate neighbour
-// @ob props=C08,C07 tier=quick cap=800 mem=6 fns=Cursor::seek,search,Cursor::next,Cursor::current,PageNode::index bound="root leaf page with 3 sorted symbolic 2-byte keys; seek key symbolic 2 bytes; then up to 4 calls of next()" unwind=5
+// @ob props=C08,C07 tier=thorough cap=1200 mem=10 fns=Cursor::seek,search,Cursor::next,Cursor::current,PageNode::index bound="root leaf page with 3 sorted symbolic 2-byte keys; seek key symbolic 2 bytes; then up to 4 calls of next()" unwind=5
 #[kani::proof]
 #[kani::unwind(5)]
 fn cursor_seek_single_leaf() {
@@ -266,42 +266,42 @@ fn range_case(sk: u8, ek: u8) {
     std::mem::forget(b);
 }
 
-// @ob props=C08,C07 tier=thorough cap=1500 mem=12 fns=Range::next,Cursor::seek,Cursor::next,Cursor::current,Bucket::range bound="root leaf page with 2 sorted symbolic 2-byte keys; three calls of next(); start bound included, end bound included, both bound keys symbolic" unwind=5
+// @ob props=C08,C07 tier=thorough cap=1500 mem=16 fns=Range::next,Cursor::seek,Cursor::next,Cursor::current,Bucket::range bound="root leaf page with 2 sorted symbolic 2-byte keys; three calls of next(); start bound included, end bound included, both bound keys symbolic" unwind=5
 #[kani::proof]
 #[kani::unwind(5)]
 fn range_included_included() {
     range_case(0, 0);
 }
 
-// @ob props=C08,C07 tier=thorough cap=1500 mem=12 fns=Range::next,Cursor::seek,Cursor::next,Cursor::current,Bucket::range bound="root leaf page with 2 sorted symbolic 2-byte keys; three calls of next(); start bound included, end bound excluded, both bound keys symbolic" unwind=5
+// @ob props=C08,C07 tier=thorough cap=1500 mem=16 fns=Range::next,Cursor::seek,Cursor::next,Cursor::current,Bucket::range bound="root leaf page with 2 sorted symbolic 2-byte keys; three calls of next(); start bound included, end bound excluded, both bound keys symbolic" unwind=5
 #[kani::proof]
 #[kani::unwind(5)]
 fn range_included_excluded() {
     range_case(0, 1);
 }
 
-// @ob props=C08,C07 tier=quick cap=800 mem=12 fns=Range::next,Cursor::seek,Cursor::next,Cursor::current,Bucket::range bound="root leaf page with 2 sorted symbolic 2-byte keys; three calls of next(); start bound included, end bound unbounded, both bound keys symbolic" unwind=5
+// @ob props=C08,C07 tier=quick cap=800 mem=16 fns=Range::next,Cursor::seek,Cursor::next,Cursor::current,Bucket::range bound="root leaf page with 2 sorted symbolic 2-byte keys; three calls of next(); start bound included, end bound unbounded, both bound keys symbolic" unwind=5
 #[kani::proof]
 #[kani::unwind(5)]
 fn range_included_unbounded() {
     range_case(0, 2);
 }
 
-// @ob props=C08,C07 tier=quick cap=800 mem=12 fns=Range::next,Cursor::seek,Cursor::next,Cursor::current,Bucket::range bound="root leaf page with 2 sorted symbolic 2-byte keys; three calls of next(); start bound excluded, end bound included, both bound keys symbolic" unwind=5
+// @ob props=C08,C07 tier=quick cap=800 mem=16 fns=Range::next,Cursor::seek,Cursor::next,Cursor::current,Bucket::range bound="root leaf page with 2 sorted symbolic 2-byte keys; three calls of next(); start bound excluded, end bound included, both bound keys symbolic" unwind=5
 #[kani::proof]
 #[kani::unwind(5)]
 fn range_excluded_included() {
     range_case(1, 0);
 }
 
-// @ob props=C08,C07 tier=thorough cap=1500 mem=12 fns=Range::next,Cursor::seek,Cursor::next,Cursor::current,Bucket::range bound="root leaf page with 2 sorted symbolic 2-byte keys; three calls of next(); start bound excluded, end bound excluded, both bound keys symbolic" unwind=5
+// @ob props=C08,C07 tier=thorough cap=1500 mem=16 fns=Range::next,Cursor::seek,Cursor::next,Cursor::current,Bucket::range bound="root leaf page with 2 sorted symbolic 2-byte keys; three calls of next(); start bound excluded, end bound excluded, both bound keys symbolic" unwind=5
 #[kani::proof]
 #[kani::unwind(5)]
 fn range_excluded_excluded() {
     range_case(1, 1);
 }
 
-// @ob props=C08,C07 tier=thorough cap=1500 mem=12 fns=Range::next,Cursor::seek,Cursor::next,Cursor::current,Bucket::range bound="root leaf page with 2 sorted symbolic 2-byte keys; three calls of next(); start bound excluded, end bound unbounded, both bound keys symbolic" unwind=5
+// @ob props=C08,C07 tier=thorough cap=1500 mem=16 fns=Range::next,Cursor::seek,Cursor::next,Cursor::current,Bucket::range bound="root leaf page with 2 sorted symbolic 2-byte keys; three calls of next(); start bound excluded, end bound unbounded, both bound keys symbolic" unwind=5
 #[kani::proof]
 #[kani::unwind(5)]
 fn range_excluded_unbounded() {
@@ -531,5 +531,40 @@ fn cursor_scan_mixed_page_and_node() {
     let g = b.get([35u8, 0]);
     assert!(key_of(&g) == Some([35, 0]));
     std::mem::forget(g);
+    std::mem::forget(b);
+}
+
+// ---- C08-Ob3 (quick variant): seek on a 2-key leaf (the 3-key variant is in the thorough tier)
+// @ob props=C08,C07 tier=quick cap=700 mem=6 fns=Cursor::seek,search,Cursor::next,Cursor::current,PageNode::index bound="root leaf page with 2 sorted symbolic 2-byte keys; seek key symbolic 2 bytes; then three calls of next()" unwind=5
+#[kani::proof]
+#[kani::unwind(5)]
+fn cursor_seek_two_keys() {
+    let k2: [[u8; 2]; 2] = kani::any();
+    kani::assume(k2[0] < k2[1]);
+    tree_single_leaf(&[k2[0], k2[1], [0, 0]], 2);
+    let b = mk_bucket(3, false);
+    let mut c = b.cursor();
+    let s: [u8; 2] = kani::any();
+    let exists = c.seek(s);
+    let d0 = c.next();
+    let d1 = c.next();
+    let d2 = c.next();
+    let got = [key_of(&d0), key_of(&d1), key_of(&d2)];
+    let hit = s == k2[0] || s == k2[1];
+    assert!(exists == hit, "seek reports whether the key exists");
+    // iteration starts at the key, or at an immediate neighbour (the greatest smaller key, or the smallest key)
+    let start = if s >= k2[1] { 1 } else { 0 };
+    if start == 0 {
+        assert!(got[0] == Some(k2[0]) && got[1] == Some(k2[1]) && got[2].is_none(), "every later entry follows in order");
+    } else {
+        assert!(got[0] == Some(k2[1]) && got[1].is_none() && got[2].is_none());
+    }
+    kani::cover!(hit && start == 1);
+    kani::cover!(!hit && s < k2[0]);
+    kani::cover!(!hit && s > k2[1]);
+    std::mem::forget(d0);
+    std::mem::forget(d1);
+    std::mem::forget(d2);
+    std::mem::forget(c);
     std::mem::forget(b);
 }
